@@ -260,8 +260,11 @@ def run(ctx, col: Collector):
     # ---------------------------------------------------------------- (ii) encodings
     def encodings():
         n_open = 0
+        from .common import get_cg
+        roots = [fi.id for fi in idx.all_funcs() if fi.module == PARSER_MOD]
+        reach = get_cg(ctx).closure(roots)
         for fi in idx.all_funcs():
-            if fi.module != PARSER_MOD:
+            if fi.id not in reach:
                 continue
             for n in walk_no_nested(fi.node):
                 if isinstance(n, ast.Call) and isinstance(n.func, ast.Name) and n.func.id == 'open':
